@@ -144,7 +144,7 @@ def check(ctx, prop):
     ctx.log("model %s: %d distinct states, depth %d" % (c["mc"] % ctx.tier, mc.distinct, mc.depth))
     scheds, labels = [], []
     for dev, inv in sorted(c["devs"].items()):
-        h, r = T.counterexample_hist(ctx, d, "MC_Store.tla", "Dev_Store_%s.cfg" % dev, timeout=1200, workers=8)
+        h, r = T.counterexample_hist(ctx, d, "MC_Store.tla", "Dev_Store_%s.cfg" % dev, timeout=1200, workers=1)  # one worker: deterministic shortest counterexample
         if h is None or inv not in r.violated:
             raise Broken("deviation %s no longer violates %s in the model (vacuous deviation): %s" % (dev, inv, r.violated))
         scheds.append(mk_sched(mode, h)); labels.append("dev:" + dev)
@@ -169,6 +169,13 @@ def check(ctx, prop):
     runs = split(rows)
     if len(runs) != len(scheds):
         raise Broken("harness recorded %d runs for %d schedules" % (len(runs), len(scheds)))
+    ops = {}
+    for r in rows:
+        k = r["ev"] + (".failed" if r["ev"] == "CoordCommit" and not r["good"] else "")
+        ops[k] = ops.get(k, 0) + 1
+    missing = [k for k in REQUIRED[mode] if not ops.get(k)]
+    if missing:
+        raise Broken("vacuous run: operations never executed on the real code: %s" % missing)
     consumed, viol, _ = layers.observe(ctx, DIR, "Obs_Store.tla", "Obs_Store.cfg", rows, timeout=1800)
     violations = classify(prop, rows, runs, scheds, labels, viol)
     # layer C: first against the repaired design, then against the pinned-tree shape (named deviations switched on)
@@ -190,7 +197,7 @@ def check(ctx, prop):
         "states": mc.distinct, "transitions": mc.generated, "depth": mc.depth, "exhaustive": True, "model_config": c["mc"] % ctx.tier,
         "traces_validated_against_impl": len(runs), "trace_events": len(rows), "evaluations": len(scheds),
         "distinct_nontrivial": nontrivial(mode, scheds), "rule": RULE[mode],
-        "deviation_schedules": sorted(c["devs"]), "conformance": ("drift" if drift else "accepted"), "conformance_detail": conf,
+        "operations_observed": ops, "deviation_schedules": sorted(c["devs"]), "conformance": ("drift" if drift else "accepted"), "conformance_detail": conf,
         "tree_shape_accepted_by_layer_C": conf["shape"], "binding_self_test": st,
         "samples": [scheds[0], scheds[min(len(scheds) - 1, ndev + 1)], [_brief(r) for r in runs[0][:4]]],
     }
@@ -203,14 +210,21 @@ def check(ctx, prop):
             cov["tools_unknown_to_model"] = unknown
     if not quick:
         cov["action_coverage"] = {k: v[1] for k, v in mc.action_coverage().items()}
-    return verdict(ctx, violations, level, cov, ASSUME[mode])
+    return verdict(ctx, violations, level, cov, ASSUME[mode] + [INFRA])
 
 
+REQUIRED = {  # every operation of the mode must have been executed on the real code at least once (else exit 2)
+    "store": ["CreateTopic", "DeleteTopic", "CreatePartitions", "UpdateOffsets", "NextOffset", "Metadata", "Refresh", "Commit", "FetchOffset",
+              "ListOffsets", "PutGroup", "FetchGroup", "ListGroups", "DeleteGroup", "Final"],
+    "coord": ["CoordCommit", "CoordCommit.failed", "CoordFetch"],
+    "tools": ["UpdateOffsets", "UpdateConfig", "Commit", "PutGroup", "Tool"],
+}
 RULE = {
     "store": "schedules = TLC counterexamples of the named deviations + TLC -simulate behaviours (seeded), each closed with ListOffsets, ListGroups, Final; non-trivial = writes to >=2 of {topics, produce offsets, consumer offsets, groups} and uses a name containing ':' or '/'",
     "coord": "schedules = TLC counterexamples + -simulate behaviours; non-trivial = >=2 successful commits on different (group, topic, partition) and >=1 fetch",
     "tools": "schedules = TLC counterexample + the TLC-enumerated cover of all (tool, shape) pairs + -simulate behaviours; non-trivial = >=1 write before a tool call and >=1 tool call",
 }
+INFRA = "an etcd timeout / lost connection (context deadline, UNKNOWN_SERVER_ERROR from a failed store call) aborts the run with exit 2; it is never recorded as an observation"
 ASSUME = {
     "store": ["sequential histories on one store instance of each kind; the EtcdStore snapshot watcher goroutine is stopped after construction (explicit Refresh steps reload the snapshot instead)",
               "error results are compared by class (ok / exists / invalid / unknown / other); group values by every protobuf field",
